@@ -156,6 +156,19 @@ def _nest_events(path):
     return out
 
 
+def _rename(t, ren):
+    """Replace sub-terms by their renamings (bottom-up over T terms and tuples)."""
+    if not ren:
+        return t
+    if t in ren:
+        return ren[t]
+    if isinstance(t, T):
+        return T(t.op, tuple(_rename(a, ren) for a in t.args))
+    if isinstance(t, tuple):
+        return tuple(_rename(a, ren) for a in t)
+    return t
+
+
 def rule_rowgen(P) -> RuleResult:
     res = RuleResult('R-ROWGEN')
     res.exhaustive = True
@@ -190,6 +203,30 @@ def rule_rowgen(P) -> RuleResult:
                     res.fail(construct, 'rowgen:prepare', f'{cname} must iterate the entries prepared by OPEN/CLOSE/CLEAR (self.prepare())', loc(it))
                     break
                 ne = _nest_events(p)
+                # sequences that only re-present another one: `(x for x in S if c)` walked as it is stands for S (under c), and
+                # `enumerate(S, start)` for S with a counter; elements are renamed accordingly
+                ren, starts = {}, {}
+
+                def plain(seq):
+                    while True:
+                        if isinstance(seq, SList) and seq.origin is not None and seq.origin[1] == T('elem', (seq.origin[0],)):
+                            ren[T('elem', (seq,))] = T('elem', (plain(seq.origin[0]),))
+                            seq = plain(seq.origin[0])
+                            continue
+                        if isinstance(seq, T) and seq.op == 'call' and seq.args[0] == 'enumerate' and 1 <= len(seq.args[1]) <= 2:
+                            inner = plain(_rename(seq.args[1][0], ren))
+                            start = seq.args[1][1] if len(seq.args[1]) == 2 else dict(seq.args[2]).get('start', 0)
+                            ren[T('elem', (seq, (1,)))] = T('elem', (inner,))
+                            starts[T('elem', (seq, (0,)))] = (start, inner)
+                            return inner
+                        return _rename(seq, ren)
+                # a comprehension filtered by a condition that is false in this scenario has no elements: what its loop body did on the
+                # abstract element did not happen
+                def dead(seq):
+                    return isinstance(seq, SList) and seq.origin is not None and any(c is False for c in seq.origin[2])
+                ne = [(st, e) for st, e in ne if not any(dead(x) for x in st)]
+                ne = [(tuple(plain(x) for x in st), e) for st, e in ne]
+                ne = [(st, (e[0], _rename(e[1], ren), {k: _rename(v, ren) for k, v in e[2].items()}) if e[0] == 'yield' else e) for st, e in ne]
                 ys = [(st, e) for st, e in ne if e[0] == 'yield']
                 if early_exits(p, ENTRIES):
                     res.fail(construct, 'rowgen:filter', f'{cname}: at {what} the generator stops scanning the entries: the rows of all '
@@ -236,6 +273,16 @@ def rule_rowgen(P) -> RuleResult:
                         break
                     ctx = good[0][1][1]
                     augs = [e for st, e in ne if e[0] == 'aug' and e[1] == T('attr', (ctx, 'rowid')) and st == (ENTRIES, postings)]
+                    # or: the counter of enumerate(postings, context.rowid + 1) stored as the row id, once per posting
+                    counted = [e for st, e in ne if e[0] == 'store' and e[1] == T('attr', (ctx, 'rowid')) and st == (ENTRIES, postings)
+                               and e[2] in starts and starts[e[2]][1] == postings]
+                    if len(counted) == 1 and not augs:
+                        start = starts[counted[0][2]][0]
+                        rid = T('attr', (ctx, 'rowid'))
+                        if isinstance(start, T) and start.op == 'bin' and start.args[0] == '+' and set(start.args[1:]) == {rid, 1} or \
+                                (isinstance(start, T) and start.op == 'bin' and start.args[0] == '+' and 1 in start.args[1:] and
+                                 any(isinstance(x, T) and x.op == 'attr' and x.args[1] == 'rowid' for x in start.args[1:])):
+                            continue
                     if [(e[2], e[3]) for e in augs] != [('+', 1)]:
                         res.fail(construct, 'rowgen:rowid', 'every posting row gets its own row id (context.rowid += 1 once per posting): '
                                  'the running balance relies on it', loc(it))
@@ -293,6 +340,22 @@ def rule_rowgen(P) -> RuleResult:
             res.ok({'generator': it.fq, 'rows': f'one per {what}'})
         else:
             res.fail(it.fq, f'rowgen:{attr}', f'the {attr} table yields one row per {what} of the ledger', loc(it))
+    # the null table `#` (SELECT without FROM on a connection without ledger, constant expressions): exactly one row, NULL
+    nt = P.module('beanquery.tables').classes.get('NullTable')
+    it = nt.methods.get('__iter__') if nt else None
+    if it is None:
+        raise AnalysisError('anchor vanished: tables.NullTable.__iter__')
+    for p in Engine(P).paths(it, {'self': SELF}):
+        v = p.value
+        ys = [e[1] for e in p.events if e[0] == 'yield']
+        while isinstance(v, T) and v.op == 'call' and v.args[0] in ('iter', 'list', 'tuple') and len(v.args[1]) == 1:
+            v = v.args[1][0]
+        rows = ys if ys else (list(v.items) if isinstance(v, SList) and not v.opaque_tail else list(v.args) if isinstance(v, T) and v.op == 'tuple' else None)
+        if p.decisions or rows != [None]:
+            res.fail(it.fq, 'rowgen:null-table', f'the null table has exactly one row, NULL (SELECT 1 + 1 gives one row; count(*) over it is 1); '
+                     f'its row generator gives `{show(p.value)[:60] if not ys else [show(y) for y in ys]}`', loc(it))
+        else:
+            res.ok({'generator': it.fq, 'rows': 'exactly one, NULL'})
     return res
 
 
